@@ -2102,6 +2102,16 @@ size_t rtosc_scan_arg_vals(const char* src,
 {
     size_t last_bufsize;
     size_t rd=0;
+
+    // like rtosc_count_printed_arg_vals(): white space and comments
+    // may precede the first argument value
+    do
+    {
+        rd += skip_fmt(&src, " %n");
+        while(*src == '%')
+            rd += skip_fmt(&src, "%*[^\n]%n");
+    } while(isspace(*src));
+
     for(size_t i = 0; i < n; )
     {
         last_bufsize = bufsize;
